@@ -10,9 +10,11 @@ from .. import loader
 from . import thr, tok
 
 BOUNDS = {"quick": [dict(K=3, obs=1, pre=2, to=1), dict(K=2, obs=2, pre=1, to=1, log=True), dict(K=4, obs=1, pre=1, to=1, log=True),
-                    dict(K=3, obs=1, pre=1, to=1, log=True, printer=True)],
+                    dict(K=3, obs=1, pre=1, to=1, log=True, printer=True), dict(K=3, obs=1, pre=2, to=1, onstart=True, flags=(True, False)),
+                    dict(K=4, obs=1, pre=1, to=1, flags=(False, True))],
           "thorough": [dict(K=6, obs=1, pre=2, to=2), dict(K=3, obs=2, pre=2, to=1, log=True), dict(K=5, obs=1, pre=3, to=1), dict(K=2, obs=3, pre=1, to=1),
-                       dict(K=7, obs=1, pre=1, to=1, log=True), dict(K=4, obs=1, pre=2, to=1, log=True, printer=True)]}
+                       dict(K=7, obs=1, pre=1, to=1, log=True), dict(K=4, obs=1, pre=2, to=1, log=True, printer=True),
+                       dict(K=4, obs=1, pre=2, to=1, onstart=True, flags=(True, False)), dict(K=5, obs=1, pre=1, to=1, flags=(False, True))]}
 
 
 class RecLogger:
@@ -29,15 +31,18 @@ def sig(regs):
     return [(round(r.meta.start * thr.SR), round(r.meta.end * thr.SR), bytes(r.data)) for r in regs]
 
 
-def harness(L, K, nobs, max_pre, max_to, log=False, printer=False):
+def harness(L, K, nobs, max_pre, max_to, log=False, printer=False, onstart=False, flags=(False, False)):
     W, core, util = L.modules["workers"], L.modules["core"], L.modules["util"]
     Obs = thr.make_observer_class(W)
     data = thr.tagged_audio(K)
 
+    skw = dict(thr.SPLIT_KW, drop_trailing_silence=flags[0], strict_min_dur=flags[1], max_dur=0.2 if any(flags) else thr.SPLIT_KW["max_dur"], min_dur=0.2 if any(flags) else thr.SPLIT_KW["min_dur"])
+
     def path(e):
         s = S.Sched(e, max_timeouts=max_to, max_preempt=max_pre)
+        s.yield_on_start = onstart
         val = thr.window_validator(data)
-        meta = dict(K=K, obs=nobs, pre=max_pre, to=max_to, log=log, printer=printer)
+        meta = dict(K=K, obs=nobs, pre=max_pre, to=max_to, log=log, printer=printer, onstart=onstart, flags=list(flags))
         e.on_budget = lambda m: mk(m, meta, s)
         outcome = None
         obs = []
@@ -49,7 +54,7 @@ def harness(L, K, nobs, max_pre, max_to, log=False, printer=False):
             if printer:
                 W.print = lambda *a, **k: printed.append(" ".join(str(x) for x in a))
                 allobs.append(W.PrintWorker("{id} {start} {end}", "%S"))
-            tw = W.TokenizerWorker(reader, allobs, logger=RecLogger() if log else None, validator=val, **thr.SPLIT_KW)
+            tw = W.TokenizerWorker(reader, allobs, logger=RecLogger() if log else None, validator=val, **skw)
             s.private.add(id(tw._inbox))
             tw.start_all()
             tw.join()
@@ -61,7 +66,7 @@ def harness(L, K, nobs, max_pre, max_to, log=False, printer=False):
             outcome = ("failed", str(ex))
         finally:
             s.cleanup()
-        want = sig(list(core.split(data, sr=thr.SR, sw=thr.SW, ch=thr.CH, analysis_window=0.1, validator=thr.window_validator(data), **thr.SPLIT_KW)))
+        want = sig(list(core.split(data, sr=thr.SR, sw=thr.SW, ch=thr.CH, analysis_window=0.1, validator=thr.window_validator(data), **skw)))
         fails = judge(outcome, want)
         if printer and not fails:
             exp = ["%d %.3f %.3f" % (i, a / thr.SR, b / thr.SR) for i, (a, b, _) in enumerate(want, 1)]
@@ -111,8 +116,11 @@ def replay_fn(c):
     data = thr.tagged_audio(K)
     val = thr.concrete_validator(data, c["valid"])
     s = S.Sched(None, max_timeouts=c["to"] + 50, max_preempt=10 ** 6)
+    s.yield_on_start = bool(c.get("onstart"))
     s.script = [tuple(x) for x in c["schedule"]]
     outcome = None
+    fl = c.get("flags") or [False, False]
+    skw = dict(thr.SPLIT_KW, drop_trailing_silence=fl[0], strict_min_dur=fl[1], max_dur=0.2 if any(fl) else thr.SPLIT_KW["max_dur"], min_dur=0.2 if any(fl) else thr.SPLIT_KW["min_dur"])
     try:
         reader = util.AudioReader(data, block_dur=0.1, sr=thr.SR, sw=thr.SW, ch=thr.CH)
         obs = [Obs() for _ in range(c["obs"])]
@@ -121,7 +129,7 @@ def replay_fn(c):
         if c.get("printer"):
             W.print = lambda *a, **k: printed.append(" ".join(str(x) for x in a))
             allobs.append(W.PrintWorker("{id} {start} {end}", "%S"))
-        tw = W.TokenizerWorker(reader, allobs, logger=RecLogger() if c.get("log") else None, validator=val, **thr.SPLIT_KW)
+        tw = W.TokenizerWorker(reader, allobs, logger=RecLogger() if c.get("log") else None, validator=val, **skw)
         s.private.add(id(tw._inbox))
         tw.start_all()
         tw.join()
@@ -133,7 +141,7 @@ def replay_fn(c):
         outcome = ("failed", str(ex))
     finally:
         s.cleanup()
-    want = sig(list(core.split(data, sr=thr.SR, sw=thr.SW, ch=thr.CH, analysis_window=0.1, validator=thr.concrete_validator(data, c["valid"]), **thr.SPLIT_KW)))
+    want = sig(list(core.split(data, sr=thr.SR, sw=thr.SW, ch=thr.CH, analysis_window=0.1, validator=thr.concrete_validator(data, c["valid"]), **skw)))
     fails = judge(outcome, want)
     if c.get("printer") and not fails:
         exp = ["%d %.3f %.3f" % (i, a / thr.SR, b / thr.SR) for i, (a, b, _) in enumerate(want, 1)]
@@ -155,6 +163,7 @@ def replay(c):
 
 
 def run(rep):
+    tok.VALIDATE[0] = replay_fn
     L = thr.load()
     rep.hashes = L.hashes
     cfgs = BOUNDS[rep.tier]
@@ -169,7 +178,9 @@ def run(rep):
                        "time-outs fire only on an empty queue, at most `to` times per worker", "datetime.now() left real"]
     rep.outside = ["more windows / observers / pre-emptions than stated", "real-time effects"]
     for cf in cfgs:
-        hn = "sched[K=%d,obs=%d,pre=%d,to=%d%s%s]" % (cf["K"], cf["obs"], cf["pre"], cf["to"], ",logger" if cf.get("log") else "", ",PrintWorker" if cf.get("printer") else "")
-        ex = explore(harness(L, cf["K"], cf["obs"], cf["pre"], cf["to"], cf.get("log", False), cf.get("printer", False)), max_decisions=3000, path_wall_s=30)
+        hn = "sched[K=%d,obs=%d,pre=%d,to=%d%s%s%s%s]" % (cf["K"], cf["obs"], cf["pre"], cf["to"], ",logger" if cf.get("log") else "", ",PrintWorker" if cf.get("printer") else "",
+                                                        ",start-is-a-scheduling-point" if cf.get("onstart") else "", ",flags=%s" % (cf["flags"],) if cf.get("flags") else "")
+        ex = explore(harness(L, cf["K"], cf["obs"], cf["pre"], cf["to"], cf.get("log", False), cf.get("printer", False), cf.get("onstart", False),
+                             tuple(cf.get("flags", (False, False)))), max_decisions=3000, path_wall_s=30)
         rep.add_exploration(hn, ex, bounds=cf)
         tok.handle_cex(rep, hn, ex, replay_fn)
